@@ -444,6 +444,19 @@ def run_bookkeeping(col):
         want = [cvals(npmodel.to_obj(it.getattr(qa, "points"))), cvals(npmodel.to_obj(it.getattr(qb, "points")))]
         bad = [(c, k) for c in range(2) for k in range(4) if jc[c, k] >= len(jp) or jp[jc[c, k]] != want[c][k]]
         return not bad, "mesh/_container.py MeshContainer.append / mesh/_tools.py concatenate: moved corners (cell, node) %s" % bad
+    def chk_merge_append():
+        qc = it.call(MeshC, [npmodel.array([[2, 0], [3, 0], [3, 1], [2, 1]], dtype=Fd), np.array([[0, 1, 2, 3]]), "quad"], {})
+        mc = it.call(MC, [[qa, qb]], dict(merge=True))
+        it.call_method(mc, "append", [qc])
+        cp = cvals(npmodel.to_obj(it.getattr(mc, "points")))
+        bad = []
+        for k, (m, src) in enumerate(zip(it.getattr(mc, "meshes"), (qa, qb, qc))):
+            want = cvals(npmodel.to_obj(it.getattr(src, "points")))
+            cn = npmodel.to_int_array(np.asarray(it.getattr(m, "cells")))
+            mp = cvals(npmodel.to_obj(it.getattr(m, "points")))
+            bad += [(k, j) for j in range(4) if cn[0, j] >= len(mp) or mp[cn[0, j]] != want[j] or mp != cp]
+        return not bad, "mesh/_container.py merge_duplicate_points / append: moved corners or diverging point arrays (mesh, node) %s" % bad[:4]
+    col.check("C16.O7", "MeshContainer merge then append", "merging duplicate points and appending a further mesh keeps every cell corner of every mesh; the container and its meshes share one point array", chk_merge_append)
     col.check("C16.O7", "concatenate meshes of a MeshContainer", "meshes handed out by a MeshContainer can be concatenated: no cell corner moves (their point counts describe the shared point array)", chk_container)
     # merge_duplicate_points: concrete coordinates with two coincident points
     F = Fraction
